@@ -138,7 +138,9 @@ def addPrivate (o : Opts) (stmtId : Str) (fieldKey : List Nat) (row : Row) (reg 
         (row.set pcomp (appendCell (row.get pcomp) [','] (adjust o.gs t)), reg)
       | .stmt _ _ | .pairs _ _ =>
         if o.ext then
-          let (reg', id) := register reg stmtId (fieldKey ++ [1000 + i]) p 1000 []
+          -- the code caches the id per private node (pointer); the pure tree carries a copy of
+          -- the node in every value it is linked to, so the node is identified by its content
+          let (reg', id) := register reg stmtId (1000 :: ((p.meta.sfx.getD []) ++ '|' :: flatNode 64 p).map Char.toNat) p 1000 []
           (row.set (pcomp ++ refSuffix) (appendCell (row.get (pcomp ++ refSuffix)) [','] id), reg')
         else
           (row.set (pcomp ++ refSuffix) (appendCell (row.get (pcomp ++ refSuffix)) [','] (adjust o.gs (flatNode 64 p))), reg)
